@@ -187,4 +187,40 @@ theorem callArgCountK_no_panic (extra nPos : Nat) (kw : Bool) (he : extra ≤ 1)
   simp only [Nat.mod_eq_of_lt this, if_true]
   simp
 
+theorem numberAll_ok (l : List Nat) (h : ∀ i ∈ l, i + 1 < 18446744073709551616) :
+    ∃ xs, numberAll l = .ok xs := by
+  induction l with
+  | nil => exact ⟨[], rfl⟩
+  | cons i is ih =>
+    have hi := h i (by simp)
+    obtain ⟨xs, hxs⟩ := ih (fun j hj => h j (by simp [hj]))
+    refine ⟨(i + 1) :: xs, ?_⟩
+    simp [numberAll, usizeAdd, hi, hxs]
+
+theorem mem_window_lt (n a b i : Nat) (h : i ∈ ((List.range n).drop a).take b) : i < n := by
+  have h1 := List.mem_of_mem_take h
+  have h2 := List.mem_of_mem_drop h1
+  exact List.mem_range.1 h2
+
+/-- the window arithmetic of `render_debug_info` never overflows: for every line number a `usize` can
+    hold and every source of fewer than 2^63 lines -/
+theorem debugWindowK_no_panic (line : Option Nat) (n : Nat) (hl : ∀ l, line = some l → l < 18446744073709551616)
+    (hn : n < 9223372036854775808) : debugWindowK line n ≠ .panic := by
+  unfold debugWindowK
+  have hidx : (line.getD 1) - 1 + 1 < 18446744073709551616 := by
+    cases line with
+    | none => simp
+    | some l => have := hl l rfl; simp; omega
+  obtain ⟨pre, hpre⟩ := numberAll_ok (((List.range n).drop ((line.getD 1) - 1 - 3)).take (min 3 ((line.getD 1) - 1)))
+    (fun i hi => by have := mem_window_lt _ _ _ _ hi; omega)
+  obtain ⟨cur, hcur⟩ := numberAll_ok (if (line.getD 1) - 1 < n then [(line.getD 1) - 1] else [])
+    (fun i hi => by
+      split at hi
+      · simp at hi; omega
+      · simp at hi)
+  obtain ⟨post, hpost⟩ := numberAll_ok (((List.range n).drop ((line.getD 1) - 1 + 1)).take 3)
+    (fun i hi => by have := mem_window_lt _ _ _ _ hi; omega)
+  simp only [hpre, hcur, usizeAdd, hidx, if_true, hpost]
+  simp
+
 end MJ.IntOps
